@@ -22,6 +22,9 @@ CHECKS = {
  "C17": ("E4-word-enumerator", "exhaustive enumeration of all ordered (base, IRI) pairs of a generated IRI set x all parent-step limits, each answer resolved back through the real resolver",
          "Every ordered pair of a structured IRI universe (authority/no authority, rooted/rootless/empty paths, empty and dot segments, ':' in segments, multi-byte characters, queries and fragments containing '/' and '?') is relativised under 5 parent-step limits; every returned reference is validated, resolved back and its parent steps counted; None is rejected only where the property promises a reference.",
          "Small-scope hypothesis (<= 2/3 path segments over an 8-segment alphabet); inverse taken w.r.t. the toolkit's resolver.", "DESIGN.md §4 C17"),
+ "C19": ("E4-word-enumerator", "exhaustive enumeration of IRIs (all segment sequences up to a length over a traversal-oriented alphabet) x namespace/directory configurations, with a cfg-hook log of every path handed to the file system",
+         "Every valid IRI built from 5 namespaces x paths of bounded length over dot segments, empty segments, encoded dots and slashes, sibling names and absolute paths, with and without extension/fragment/query, is loaded directly and as a followed link under 4 configurations; every path probed (including failed content-negotiation retries) must lie inside a directory whose namespace prefixes the IRI, and no marker content from outside may be returned.",
+         "Real file system in a temporary tree; no symlinks; path alphabet and length bound.", "DESIGN.md §4 C19"),
  "C20": ("E4-word-enumerator", "exhaustive enumeration of native values (all i32 in the thorough tier, a complete exponent x mantissa-pattern grid of f64) and of all short lexical forms x datatypes x target types against the XSD lexical/value spaces",
          "Forward: every enumerated native value yields a literal whose lexical form is in the lexical space of its datatype, denotes the value and converts back to it (also through SimpleTerm, ArcTerm and an N-Triples round trip). Reverse: every lexical form up to a length over a 17-symbol alphabet, for 19 datatypes and 5 target types, never panics and succeeds only with the value the literal denotes.",
          "XSD 1.1 lexical grammars transcribed in the harness; Rust's float parser as correctly-rounded reference on validated forms; facet ranges of derived types not demanded.", "DESIGN.md §4 C20"),
